@@ -481,7 +481,7 @@ def rule_r3(prog, res, tier):
             for node, it, sinks in unordered_iterations(f.node, names,
                                                         cattrs):
                 n_iter += 1
-                where = '%s:%d' % (m.relpath, node.lineno)
+                where = '%s:%d' % (m.relpath, getattr(node, 'lineno', it.lineno))
                 res.ob('R3', where, '%s iterates the set %s into %s' % (
                     f.qualname, unparse(it)[:40], sinks), 'VIOLATED')
                 res.finding('R3', '%s|set-iteration|%s' % (f.qualname,
